@@ -90,9 +90,9 @@ fn mix_set(k: usize, pos: usize) -> (V9Set, usize) {
     }
 }
 
-pub fn spaces(tier: &str) -> Vec<Box<dyn Space>> {
+pub fn streams(tier: &str) -> Vec<StreamGen> {
     let thorough = tier == "thorough";
-    let mut v: Vec<Box<dyn Space>> = vec![];
+    let mut v: Vec<StreamGen> = vec![];
 
     // 1. single-field sweep: every type x supported width x value menu x delivery x padding
     {
@@ -110,8 +110,7 @@ pub fn spaces(tier: &str) -> Vec<Box<dyn Space>> {
             let body = body_for(&fields, 2, d[2] as usize, Some((0, 0, val)));
             deliver(V9Set::Tpl(vec![V9Tpl { id: 300, fields }], 0), V9Set::Data(300, body), d[1])
         };
-        let mk2 = mk.clone();
-        v.push(space("v9-single-field-sweep", n * 12, move |i| judge_stream(&mk(i)).eval, move |i| desc_calls(&mk2(i))));
+                v.push(stream_gen("v9-single-field-sweep", n * 12, move |i| Some(mk(i))));
     }
     // 2. multi-field templates over the class representatives
     {
@@ -128,16 +127,7 @@ pub fn spaces(tier: &str) -> Vec<Box<dyn Space>> {
             let body = body_for(&fields, d[1] as usize + 1, d[2] as usize, None);
             Some(deliver(V9Set::Tpl(vec![V9Tpl { id: 256, fields }], 0), V9Set::Data(256, body), d[3]))
         };
-        let mk2 = mk.clone();
-        v.push(space(
-            &format!("v9-multi-field-lists<={}", maxlen),
-            nl * 36,
-            move |i| match mk(i) {
-                Some(c) => judge_stream(&c).eval,
-                None => Eval { key: 0, transitions: 0, issues: vec![], tags: vec!["skipped-record-size-0"] },
-            },
-            move |i| mk2(i).map(|c| desc_calls(&c)).unwrap_or(json!("skipped: record size 0")),
-        ));
+                v.push(stream_gen(&format!("v9-multi-field-lists<={}", maxlen), nl * 36, mk));
         // single-deviation field values inside multi-field templates (lists of length <= 2)
         let reps = r2;
         let nl2 = list_count(reps.len(), 2);
@@ -153,16 +143,7 @@ pub fn spaces(tier: &str) -> Vec<Box<dyn Space>> {
             let body = body_for(&fields, 3, 1, Some((d[3] as usize + 1, k, &val)));
             Some(deliver(V9Set::Tpl(vec![V9Tpl { id: 256, fields }], 0), V9Set::Data(256, body), 1))
         };
-        let mk2 = mk.clone();
-        v.push(space(
-            "v9-multi-field-single-value-deviation",
-            nl2 * 2 * 12 * 2,
-            move |i| match mk(i) {
-                Some(c) => judge_stream(&c).eval,
-                None => Eval::default(),
-            },
-            move |i| mk2(i).map(|c| desc_calls(&c)).unwrap_or(json!("skipped")),
-        ));
+                v.push(stream_gen("v9-multi-field-single-value-deviation", nl2 * 2 * 12 * 2, mk));
     }
     // 3. options templates: scope lists 0..=2 x option lists 0..=2 x records x padding x delivery
     {
@@ -187,16 +168,7 @@ pub fn spaces(tier: &str) -> Vec<Box<dyn Space>> {
             body.extend(std::iter::repeat(0).take(pad));
             Some(deliver(V9Set::OptTpl(vec![V9OptTpl { id: 400, scope, opts }], 2), V9Set::Data(400, body), d[4]))
         };
-        let mk2 = mk.clone();
-        v.push(space(
-            "v9-options-templates",
-            ns * no * 16,
-            move |i| match mk(i) {
-                Some(c) => judge_stream(&c).eval,
-                None => Eval::default(),
-            },
-            move |i| mk2(i).map(|c| desc_calls(&c)).unwrap_or(json!("skipped")),
-        ));
+                v.push(stream_gen("v9-options-templates", ns * no * 16, mk));
     }
     // 4. flowset mixes: all sequences of <= 3 (thorough 4) sets over an 8-set menu x prior context x count convention
     {
@@ -223,8 +195,7 @@ pub fn spaces(tier: &str) -> Vec<Box<dyn Space>> {
             calls.push(v9_packet(&pkt));
             calls
         };
-        let mk2 = mk.clone();
-        v.push(space(&format!("v9-flowset-mixes<={}", maxlen), nl * 4, move |i| judge_stream(&mk(i)).eval, move |i| desc_calls(&mk2(i))));
+                v.push(stream_gen(&format!("v9-flowset-mixes<={}", maxlen), nl * 4, move |i| Some(mk(i))));
     }
     // 5. two templates per flowset with data for both, every order, records 1..=3 each, padding 0..=3
     {
@@ -242,8 +213,7 @@ pub fn spaces(tier: &str) -> Vec<Box<dyn Space>> {
                 _ => vec![v9_packet(&V9Pkt::new(vec![t])), v9_packet(&V9Pkt::new(vec![data[0].clone()])), v9_packet(&V9Pkt::new(vec![data[1].clone()]))],
             }
         };
-        let mk2 = mk.clone();
-        v.push(space("v9-two-templates-per-flowset", 2 * 3 * 3 * 4 * 4 * 3, move |i| judge_stream(&mk(i)).eval, move |i| desc_calls(&mk2(i))));
+                v.push(stream_gen("v9-two-templates-per-flowset", 2 * 3 * 3 * 4 * 4 * 3, move |i| Some(mk(i))));
     }
     // 6. header values: every header field x boundary values
     {
@@ -260,8 +230,7 @@ pub fn spaces(tier: &str) -> Vec<Box<dyn Space>> {
             }
             vec![v9_packet(&p)]
         };
-        let mk2 = mk.clone();
-        v.push(space("v9-header-values", 20, move |i| judge_stream(&mk(i)).eval, move |i| desc_calls(&mk2(i))));
+                v.push(stream_gen("v9-header-values", 20, move |i| Some(mk(i))));
     }
     v
 }
@@ -278,5 +247,5 @@ pub fn run(tier: &str) -> i32 {
         required_tags: vec![],
         extra: Default::default(),
     };
-    run_report(rep, spaces(tier))
+    run_report(rep, streams(tier).into_iter().map(|g| g.into_space(|c| judge_stream(c).eval)).collect())
 }
